@@ -47,6 +47,18 @@ add("C07", "fault_enumeration",
     "Trusts to_string_custom as the reference text (its agreement with the parser is C01/C02). Interrupted results are only required not to lose bytes silently.",
     "DESIGN.md section 4/C07")
 
+add("C06", "fault_enumeration",
+    "differential testing of the three input sources under generated chunk/Interrupted schedules, with a read fault injected at every byte offset",
+    "Fault enumeration: every generated input (printed text of several dialects, mutations, token-alphabet sequences, string literals built from escape pieces, arbitrary bytes) is parsed from &str, &[u8] and an instrumented io::Read under generated chunking, BufReader capacities and Interrupted patterns; outcomes must be equal. A hard read error with a unique payload is then injected at EVERY offset 0..=len (exhaustive per input): the result must be an I/O-category error carrying that payload and kind, or the untouched fault-free outcome - the latter only when every tried continuation of the first k bytes parses to the same outcome (so the bytes delivered really determine it). Anything else is a swallowed failure.",
+    "Soundness of the 'determined' rule: if the parser never reads offset k its outcome cannot depend on later bytes, so all continuations agree and nothing is flagged; the rule is a necessary condition checked on five continuations, not a proof of determination.",
+    "DESIGN.md section 4/C06")
+
+add("C10", "exploration",
+    "differential testing of the value API against the datum API plus recursive accessor comparison",
+    "Exploration: for each generated input, option set and source the two APIs run on fresh parsers and are compared item for item, including the terminal event (end of input, or an error with identical message, location and category); the three other ways of iterating are compared with the next_value loop; every datum is walked recursively through the Ref accessors next to the value's own accessors. Streams of hundreds of small datums are included so that state leaking from one top-level datum to the next becomes visible.",
+    "The oracle is the other API (a differential relation); a defect common to both APIs is C01/C03/C13's subject.",
+    "DESIGN.md section 4/C10")
+
 NOT_YET = {}
 
 def main():
